@@ -78,6 +78,8 @@ def read_wfn(text):
         if "$MOSPIN" in ln:
             words = " ".join(rest[i + 1 :]).split()
             spins = [int(w) for w in words[:nmo]]
+            if len(spins) != nmo:
+                raise ValueError(f"$MOSPIN lists {len(spins)} labels for {nmo} orbitals")
     prims = [(c - 1, t, e) for c, t, e in zip(centers, types, exps)]
     label = {1: "alpha", 2: "beta", 3: "both"}
     return {"xyz": np.array(xyz), "charges": charges, "prims": prims, "mos": mos, "spins": None if spins is None else [label[s] for s in spins]}
